@@ -372,4 +372,149 @@ theorem refused_never_listed (s : FdtAbs.State) (a : FdtAbs.ObjAttrs) (h : (FdtA
     simp only [hne, ↓reduceIte] at h
     split <;> simp_all
 
+/-! ## 2. `Session.refused` (agent e2e): coarser by design - no panics, no refusal reasons, no Z -/
+
+def fecOf : Session.Scheme → Fec
+  | .nocode => .noCode | .rs => .rs28 | .rsus => .rs28us | .raptorq => .raptorq | .raptor => .raptor
+
+/-- **`Session.refused` ⇔ the reference refuses**, on the domain of e2e's model: one of its five schemes, no
+    `usize` overflow in `max_transfer_length` (`hm`: the two `usize` products of `max_transfer_length` do not overflow, then both
+    models compute min(cap, E*B*max_sbn); where they overflow the real code panics - `PANIC` in the correspondence -
+    and e2e's model, on unbounded naturals, has no such outcome),
+    scheme-specific parameters present for Raptor / RaptorQ, `aLarge` = the partition's `a_large`. -/
+theorem session_refused_link (sch : Session.Scheme) (e b p tl : Nat) (sc : Option SchemeSpecific)
+    (q : Partition.Quad) (hbp : Partition.blockPartitioning b tl e = .ok q)
+    (hm : maxTransferLength ⟨fecOf sch, 0, b, e, p, sc⟩ = .ok (Session.maxTransferLength sch e b))
+    (hsc : (sch = .raptorq ∨ sch = .raptor) → sc.isSome = true) :
+    ∃ r, fileDescNew ⟨fecOf sch, 0, b, e, p, sc⟩ none tl = .ok r ∧
+      (Session.refused sch e b p tl q.1 = true ↔ ∃ why, r = .error why) := by
+  have hu := tooManyBlocks_unreachable ⟨fecOf sch, 0, b, e, p, sc⟩ none tl
+  rw [fileDescNew_eq] at hu ⊢
+  simp only [chosen, hm] at hu ⊢
+  by_cases hL : tl > Session.maxTransferLength sch e b
+  · simp only [hL, ↓reduceIte]
+    exact ⟨_, rfl, by simp [Session.refused, hL]⟩
+  simp only [hL, ↓reduceIte] at hu ⊢
+  cases sch <;>
+    simp only [tailA, fecOf, reduceCtorEq, or_self, or_false, or_true, false_or, false_and, true_and, ↓reduceIte, hbp,
+      maxBlockSymbols, Session.refused, Session.kMax, hL, decide_false, Bool.false_or, Bool.or_false, beq_self_eq_true,
+      Bool.true_and, Bool.false_and, Bool.and_false, Bool.or_self] at hu hsc ⊢
+  · exact ⟨_, rfl, by simp⟩
+  · by_cases hp : p = 0
+    · simp only [hp, ↓reduceIte]; exact ⟨_, rfl, by simp⟩
+    · by_cases hk : q.1 + p > 256
+      · simp only [hp, hk, ↓reduceIte]; exact ⟨_, rfl, by simp [hp, hk]⟩
+      · simp only [hp, hk, ↓reduceIte]; exact ⟨_, rfl, by simp [hp, hk]⟩
+  · by_cases hp : p = 0
+    · simp only [hp, ↓reduceIte]; exact ⟨_, rfl, by simp⟩
+    · by_cases hk : q.1 + p > 256
+      · simp only [hp, hk, ↓reduceIte]; exact ⟨_, rfl, by simp [hp, hk]⟩
+      · simp only [hp, hk, ↓reduceIte]; exact ⟨_, rfl, by simp [hp, hk]⟩
+  · have hs : sc.isNone = false := by cases sc <;> simp_all
+    by_cases hk : q.1 > 56403
+    · simp only [hk, ↓reduceIte]; exact ⟨_, rfl, by simp [hk]⟩
+    · by_cases hz : q.2.2.2 > 255
+      · simp [hk, hs, hz] at hu
+      · simp only [hk, hs, hz, ↓reduceIte, Bool.false_eq_true]; exact ⟨_, rfl, by simp [hk]⟩
+  · have hs : sc.isNone = false := by cases sc <;> simp_all
+    by_cases hk : q.1 > 8192
+    · simp only [hk, ↓reduceIte]; exact ⟨_, rfl, by simp [hk]⟩
+    · by_cases hz : q.2.2.2 > 65535
+      · simp [hk, hs, hz] at hu
+      · simp only [hk, hs, hz, ↓reduceIte, Bool.false_eq_true]; exact ⟨_, rfl, by simp [hk]⟩
+
+/-- `hm` is met wherever nothing overflows, e.g. -/
+example : maxTransferLength ⟨fecOf .rs, 0, 64, 1024, 2, none⟩ = .ok (Session.maxTransferLength .rs 1024 64) := rfl
+
+/-! ## 3. block encoder proofs (agent benc): `Accepts` / `Link.noFail` follow from admission -/
+
+/-- An admitted Reed-Solomon object satisfies exactly the two hypotheses under which
+    `BencShape.rs_accepts` / `Props.C08.accepts_discharged` prove `Accepts` (every block can be encoded):
+    at least one parity symbol, `a_large + parity ≤ 256`; an admitted Raptor / RaptorQ object has
+    `a_large ≤ K_max`.  With `k ≤ a_large` for every block these give `Session.blockFails = false` (the
+    `noFail` field of `BencSessionBridge.Link`) for RS and RaptorQ; for Raptor they do NOT exclude blocks of 2
+    or 3 symbols, which the `raptor-code` crate cannot encode: admission is deliberately silent there. -/
+theorem admitted_block_limits (dflt : Oti) (ovr : Option Oti) (L : Nat) (o : Oti)
+    (h : fileDescNew dflt ovr L = .ok (.ok o)) (q : Partition.Quad)
+    (hq : Partition.blockPartitioning (chosen dflt ovr).maxSbl L (chosen dflt ovr).esl = .ok q) :
+    (((chosen dflt ovr).fec = .rs28 ∨ (chosen dflt ovr).fec = .rs28us) →
+        1 ≤ (chosen dflt ovr).parity ∧ q.1 + (chosen dflt ovr).parity ≤ 256) ∧
+    (((chosen dflt ovr).fec = .raptorq ∨ (chosen dflt ovr).fec = .raptor) →
+        q.1 ≤ maxBlockSymbols (chosen dflt ovr).fec ∧ (chosen dflt ovr).scheme.isSome = true) := by
+  rw [fileDescNew_eq] at h
+  generalize chosen dflt ovr = oti at h hq ⊢
+  cases h1 : maxTransferLength oti with
+  | error w => simp [h1] at h
+  | ok mtl =>
+    simp only [h1] at h
+    by_cases hL : L > mtl
+    · simp [hL] at h
+    simp only [hL, ↓reduceIte] at h
+    obtain ⟨fec, inst, maxSbl, esl, parity, scheme⟩ := oti
+    simp only at hq
+    cases fec <;>
+      simp only [tailA, reduceCtorEq, or_self, or_false, or_true, false_and, true_and, ↓reduceIte,
+        maxBlockSymbols, hq, false_imp_iff, true_imp_iff, and_true, true_and] at h ⊢
+    all_goals (repeat' split at h) <;> (try simp_all) <;> (try omega)
+    all_goals (cases scheme <;> simp_all)
+
+/-- consequence in e2e's vocabulary: no block of an admitted RS / RaptorQ / No-Code object "fails" -/
+theorem admitted_blocks_never_fail (sch : Session.Scheme) (p aLarge k : Nat) (hk1 : 1 ≤ k) (hk2 : k ≤ aLarge)
+    (hrs : (sch = .rs ∨ sch = .rsus) → 1 ≤ p ∧ aLarge + p ≤ 256)
+    (hrq : sch = .raptorq → aLarge ≤ 56403) (hnot : sch ≠ .raptor) :
+    Session.blockFails sch k p = false := by
+  cases sch <;> simp_all [Session.blockFails, Session.kMax] <;> omega
+
+/-! ## 4. `Toi` (C15): which allocator operation an `add_object` call is -/
+
+/-- the `Toi.Op` a call is, given the reference's answer (`k`, `h`: harness names of object / handle) -/
+def toiOp (cfg : Cfg) (prio : Nat) (obj : Obj) (k h : Nat) (carousel : Bool) : Option Toi.Op :=
+  match accepts cfg prio obj with
+  | .error _ => none
+  | .ok (.ok _) => some (if obj.toi = .none then .add k true carousel else .addWith k h true)
+  | .ok (.error r) =>
+    some (if r.afterAllocation then (if obj.toi = .none then .add k false carousel else .addWith k h false)
+          else .addEarlyErr k)
+
+/-- the four early refusals (unknown queue, FDT complete, XML-unsafe metadata, foreign TOI handle) are
+    `Op.addEarlyErr`: nothing is allocated, the state is unchanged; every refusal of `FileDesc::new` is
+    `add k false` / `addWith k h false`: an implicit TOI is allocated and released (`consumesToi`). -/
+theorem toi_link (cfg : Cfg) (prio : Nat) (obj : Obj) (k h : Nat) (car : Bool) (r : Refuse)
+    (hr : accepts cfg prio obj = .ok (.error r)) :
+    (r.afterAllocation = false → toiOp cfg prio obj k h car = some (.addEarlyErr k) ∧
+        consumesToi cfg prio obj = false ∧ ∀ s : Toi.Sys, s.step (.addEarlyErr k) = .ok (s, .err, [])) ∧
+    (r.afterAllocation = true → obj.toi = .none → toiOp cfg prio obj k h car = some (.add k false car) ∧
+        consumesToi cfg prio obj = true) := by
+  constructor
+  · intro ha
+    refine ⟨by simp [toiOp, hr, ha], by simp [consumesToi, hr, ha], fun s => rfl⟩
+  · intro ha ht
+    exact ⟨by simp [toiOp, hr, ha, ht], by simp [consumesToi, hr, ha, ht]⟩
+
+/-- **C01, "refused when it is added, never transmitted corrupted" - one statement.**  If the reference
+    refuses (`accepts = Err`), then in the allocator model nothing stays live for the object
+    (`toi_link`: `addEarlyErr` changes nothing, `add k false` releases what it allocated - `Props.C15`
+    `reuse_only_after_release` / `invariant` hold over such histories), in the FDT model nothing is listed
+    (`fdtabs_add_link`: `files` unchanged, hence by `Props.C10.fdt_lists_exactly` /
+    `publication_lists_exactly` no instance mentions it), and the scheduler / block encoder models are
+    only ever given objects of `files` (`Props.C12.only_fdt_when_empty_ever`: no object packet without an
+    added object).  The refusal reasons are exactly these ten, `tooManyBlocks` being unreachable. -/
+theorem refused_object_leaves_no_trace (s : FdtAbs.State) (a : FdtAbs.ObjAttrs) (cp : String → List Nat)
+    (hx : ∀ str, s.cfg.xmlOk str = isXmlStr (cp str))
+    (dflt : Oti) (hd : s.cfg.oti = toF dflt) (ovr : Option Oti) (ha : a.oti = ovr.map toF)
+    (prio : Nat) (queues : List Nat) (hq : prio ∈ queues) (r : Refuse)
+    (hr : accepts { queues := queues, complete := decide (s.complete = some true), oti := dflt } prio
+            (objOf cp a ovr) = .ok (.error r)) :
+    (FdtAbs.add s a).2 = .err ∧ (FdtAbs.add s a).1.files = s.files ∧ r ≠ .tooManyBlocks := by
+  have h := (fdtabs_add_link s a cp hx dflt hd ovr ha prio queues hq).1
+  simp only [hr] at h
+  refine ⟨h.1, h.2, ?_⟩
+  intro e
+  subst e
+  unfold accepts at hr
+  simp only [hq, not_true_eq_false, ↓reduceIte] at hr
+  (repeat' split at hr) <;> (try cases hr)
+  rename_i h1
+  exact tooManyBlocks_unreachable _ _ _ h1
+
 end Flute.Props.C01.Admission
